@@ -196,7 +196,9 @@ def gen_faults(rng, p):
     faults = []
     if rng.random() < p:
         faults.append({'kind': 'raise', 'target': rng.choice(['fint', 'fint', 'kT', 'fext', 'k0']),
-                       'at': rng.choice([1, 2, 3, 5, 9, rng.randint(1, 60)])})
+                       'at': rng.choice([1, 2, 3, 5, 9, rng.randint(1, 60)]),
+                       'exc': rng.choice(['RuntimeError', 'ValueError', 'FloatingPointError', 'ZeroDivisionError', 'MemoryError',
+                                          'LinAlgError', 'KeyError'])})
     return faults
 
 
@@ -331,8 +333,19 @@ class _Budget(Exception):
     pass
 
 
-class _Injected(RuntimeError):
+class _Injected(Exception):
+    """marker base of injected callable failures; the concrete classes below also derive from the exception type a real
+    callable would raise (a domain error, a floating-point trap, a singular factorisation, an allocation failure)"""
     pass
+
+
+def _injected_class(name):
+    import numpy as np
+    bases = {'RuntimeError': RuntimeError, 'ValueError': ValueError, 'FloatingPointError': FloatingPointError,
+             'ZeroDivisionError': ZeroDivisionError, 'MemoryError': MemoryError, 'LinAlgError': np.linalg.LinAlgError,
+             'KeyError': KeyError}
+    base = bases.get(name, RuntimeError)
+    return type('_Injected' + name, (_Injected, base), {})
 
 
 class _Truncated(BaseException):
@@ -590,7 +603,7 @@ def _fault_hook(scen, mon, res):
         for f in faults:
             if f['target'] == target and mon.counts.get(target, 0) == f['at']:
                 bump(res['faults'], 'raise_' + target)
-                raise _Injected('injected failure of calc_%s at call %d' % (target, f['at']))
+                raise _injected_class(f.get('exc', 'RuntimeError'))('injected failure of calc_%s at call %d' % (target, f['at']))
     return hook
 
 
@@ -917,9 +930,12 @@ def execute(scen):
         except Exception as e:
             raised = e
             bump(res['exceptions'], type(e).__name__)
-            if world in ('S', 'P') and not isinstance(e, _Injected):
-                # every callable returned normally, yet the analysis aborted with an exception: it neither reached
-                # full load nor stopped on the minimum increment (e.g. a singular tangent must lead to a cut-back)
+            nonfinite = bool(res['faults'].get('nan_residual') or res['faults'].get('inf_residual'))
+            if world in ('S', 'P') and not isinstance(e, _Injected) and not nonfinite:
+                # every callable returned normally and with finite values, yet the analysis aborted with an exception: it
+                # neither reached full load nor stopped on the minimum increment (e.g. a singular tangent must lead to a
+                # cut-back).  After a callable has returned NaN/inf the Newton update is garbage (the solver may return NaN
+                # or refuse to factorise): an exception is then accepted, what was reported before is still judged.
                 mon.violation = mon.violation or Violation('I4-termination', {
                     'why': 'analysis aborted with an exception although no callable raised', 'exception': repr(e)[:200],
                     'increments': [float(x) for x in (an.increments or [])][-4:]}, step=mon.event)
